@@ -10,7 +10,8 @@
    uniquely" means unique among the shelves that exist. *)
 EXTENDS Naturals, FiniteSets, Sequences, TLC
 CONSTANTS NCh,        \* number of independent pending changes
-          MaxSer      \* at most MaxSer shelves are ever created
+          MaxSer,     \* at most MaxSer shelves are ever created
+          Fill        \* SpecMany only: the behaviours start by putting Fill changes on Fill shelves
 VARIABLES tree,       \* changes currently present in the working tree
           shelves,    \* set of [id, ch, ser]
           ser         \* shelves created so far
@@ -40,6 +41,19 @@ Next == (\E c \in 1..NCh : Shelve(c)) \/ (\E i \in 1..MaxSer, k \in BOOLEAN : Un
         \/ (\E i \in 1..MaxSer : Delete(i))
 Spec == Init /\ [][Next]_vars
 
+(* Many shelves at once (ids with more than one digit): the same actions, restricted to the behaviours that first shelve
+   Fill changes one after the other and then work at the ends of the shelf list - one more shelve, unshelve (apply |
+   keep) of the newest shelf "without naming it" (last_shelf), delete of the newest and of the oldest shelf - while at
+   least Fill - 1 shelves exist. *)
+Min(S) == CHOOSE m \in S : \A x \in S : m <= x
+LastShelf == IF shelves = {} THEN 0 ELSE Max(Ids)            \* what last_shelf() must answer (0 = None)
+MShelve(c) == tree # {} /\ c = Min(tree) /\ Shelve(c)
+MUnshelve(i, k) == ser >= Fill /\ Cardinality(shelves) >= Fill /\ i = LastShelf /\ Unshelve(i, k)
+MDelete(i) == ser >= Fill /\ Cardinality(shelves) >= Fill /\ i \in {LastShelf, Min(Ids)} /\ Delete(i)
+NextMany == (\E c \in 1..NCh : MShelve(c)) \/ (\E i \in 1..MaxSer, k \in BOOLEAN : MUnshelve(i, k))
+            \/ (\E i \in 1..MaxSer : MDelete(i))
+SpecMany == Init /\ [][NextMany]_vars
+
 (* ---- C15 clauses *)
 \* two existing shelves never share a number
 UniqueIds == \A s, t \in shelves : s.id = t.id => s = t
@@ -47,8 +61,13 @@ UniqueIds == \A s, t \in shelves : s.id = t.id => s = t
 SurvivesUntilDeleted == [][\A s \in shelves : s \in shelves' \/ Delete(s.id) \/ Unshelve(s.id, FALSE)]_vars
 \* shelves appear only through shelve_changes, one at a time, numbered max + 1 and carrying a fresh serial
 OnlyShelveCreates == [][\A s \in shelves' \ shelves : (\E c \in 1..NCh : Shelve(c)) /\ s.id = NextId /\ s.ser = ser + 1]_vars
+\* nothing that is on a shelf is ever overwritten: a new shelf takes a number no existing shelf has
+NewIdIsFresh == [][\A s \in shelves' \ shelves : s.id \notin Ids]_vars
+\* the newest shelf is the one with the numerically largest id, and that is where the next number comes from
+NextIdAboveAll == \A s \in shelves : s.id < NextId /\ s.id <= LastShelf
 \* anti-vacuity: an id that was handed out before is handed out again (top shelf deleted, then shelve): the ser-th
 \* shelf carries an id below ser, so by counting two of the shelves created so far had the same number
 WitnessIdReused == ~(\E s \in shelves : s.ser = ser /\ s.id < ser)
 WitnessThreeShelves == Cardinality(shelves) < 3
+WitnessElevenShelves == Cardinality(shelves) < 11
 =============================================================================
